@@ -18,6 +18,7 @@ namespace Rapid.Go
 /-- a float64 expression of the source, uninterpreted -/
 inductive FX where
   | lit (text : String)                 -- a constant, as written in the source
+  | ofBits (b : UInt64)                 -- the float64 with this bit pattern (a value handed over by floats.go)
   | ofU64 (u : UInt64)                  -- float64(u)
   | ofI64 (i : Int64)                   -- float64(i)
   | neg (a : FX)
@@ -35,6 +36,7 @@ structure FEval where
   toI64 : FX → Int64           -- int(f), int64(f)
   le : FX → FX → Bool          -- a <= b
   lt : FX → FX → Bool          -- a < b
+  f64to32 : UInt64 → UInt32    -- float32(f) on bit patterns (floats.go narrows only what it widened before)
 
 /-- `bits.Len64` (an `int`) -/
 def len64 (u : UInt64) : Int64 := Int64.ofNat (Rapid.len64 u)
@@ -53,6 +55,7 @@ class Enc (α : Type) where
   dec : Val → α
 
 instance : Enc UInt64 := ⟨fun u => .int u.toNat, fun v => match v with | .int i => UInt64.ofNat i.toNat | _ => 0⟩
+instance : Enc Int32 := ⟨fun i => .int i.toInt, fun v => match v with | .int i => Int32.ofInt i | _ => 0⟩
 instance : Enc Int64 := ⟨fun i => .int i.toInt, fun v => match v with | .int i => Int64.ofInt i | _ => 0⟩
 instance : Enc Bool := ⟨fun b => .bool b, fun v => match v with | .bool b => b | _ => false⟩
 instance : Enc Unit := ⟨fun _ => .nil, fun _ => ()⟩
@@ -78,6 +81,7 @@ def FX.toVal : FX → Val
   | .div a b => .cons (.int 7) (.cons a.toVal b.toVal)
   | .call1 f a => .cons (.int 8) (.cons (strVal f) a.toVal)
   | .call2 f a b => .cons (.int 9) (.cons (strVal f) (.cons a.toVal b.toVal))
+  | .ofBits b => .cons (.int 10) (.int b.toNat)
 
 def FX.ofVal : Val → FX
   | .cons (.int 0) s => .lit (String.ofList (valStr s))
@@ -90,6 +94,7 @@ def FX.ofVal : Val → FX
   | .cons (.int 7) (.cons a b) => .div (FX.ofVal a) (FX.ofVal b)
   | .cons (.int 8) (.cons f a) => .call1 (String.ofList (valStr f)) (FX.ofVal a)
   | .cons (.int 9) (.cons f (.cons a b)) => .call2 (String.ofList (valStr f)) (FX.ofVal a) (FX.ofVal b)
+  | .cons (.int 10) (.int b) => .ofBits (UInt64.ofNat b.toNat)
   | _ => .lit ""
 
 instance : Enc FX := ⟨FX.toVal, FX.ofVal⟩
